@@ -424,8 +424,8 @@ func c06ReadConf(c *Ctx) {
 		for k, v := range p.FactsAt(len(p.Blocks) - 1) {
 			if k.op == token.EQL && k.y != nil && v {
 				for _, pair := range [][2]ssa.Value{{k.x, k.y}, {k.y, k.x}} {
-					if n, isC := constInt(pair[1]); isC && (n == confV || n == denV) && isMsgType(pair[0]) {
-						okType = true
+					if n, isC := constInt(pair[1]); isC && (n == confV || n == denV) && (isMsgType(pair[0]) || isMsgType(p.Resolve(pair[0], len(p.Blocks)-1))) {
+						okType = true // (a test made in an inlined predicate speaks about its parameter: mapped back to the argument)
 					}
 				}
 			}
